@@ -475,6 +475,7 @@ class World:
         if a == "Create":
             f0 = self.minerals[act["m"]].fractions[0]
             ev["uniform"] = bool(np.all(f0 >= 1.0 / len(f0) * (1 - 1e-12)))
+            ev["default"] = act.get("tex") == "random"      # constructed from the seed alone
         ev["disk"] = self.disk_projection()
         return ev
 
